@@ -118,6 +118,8 @@ def run(ctx):
     ctx.ob('R14.5', 'writer.consolidate_categories:covers-every-row-group-and-chunk',
            'for rg in fmd.row_groups' in s and 'for col in rg.columns' in s and "key_value[2] = json.dumps(meta, sort_keys=True).encode()" in s, '', wr.loc(cc))
     from . import callsigs as _cs
+    from . import findings3 as _f3
+    _f3.open_routes(ctx, 'R14.11')
     _cs.general_rules(ctx, 'R14', ['api.ParquetFile.__init__', 'util.metadata_from_many', 'writer.merge', 'util.analyse_paths'])
 
 
